@@ -403,7 +403,11 @@ func runDigest(corpusPath string) (map[string]string, error) {
 	if err != nil {
 		return nil, err
 	}
-	out, err := exec.Command(bin, corpusPath).Output()
+	args := []string{}
+	if corpusPath != "" {
+		args = append(args, corpusPath)
+	}
+	out, err := exec.Command(bin, args...).Output()
 	if err != nil {
 		return nil, fmt.Errorf("digest helper: %v (%s)", err, out)
 	}
